@@ -8,9 +8,12 @@ DUTs (real luna code, elaborated per case; one family per case):
   usb2_crc16  USBDataPacketCRC._generate_next_crc (byte step) in a comb lane + the real USBDataPacketCRC module with two
               DataCRCInterfaces (rx and tx byte streams, restarts from either interface).
   usb3_crc16  HeaderPacketCRC._generate_next_crc (word step) in a comb lane + the real HeaderPacketCRC module.
-  usb3_crc32  the four DataPacketPayloadCRC builders (4/3/2/1-byte steps) in comb lanes + the real module
-              (crc, next_crc_3B/2B/1B outputs; word steps followed by a 1/2/3-byte trailing step).
-Lanes: `out_next = output_stage(builder(input_stage(out_cur), data))` where output_stage(x) = ~x[::-1] is the
+  usb3_crc32  the real DataPacketPayloadCRC module only (crc, next_crc_3B/2B/1B outputs; word steps followed by a
+              1/2/3-byte trailing step).  Its four equation sets are decided through the module: the register is put at
+              any chosen CRC value S by "clear, one word W(S)" (W computed by running the reference backwards), then data
+              D is presented (next_crc_* are combinational in S and D) and one 4/3/2/1-byte step is taken.  No lanes:
+              pysim needs seconds to compile each copy of the CRC-32 equations.
+Lanes (crc16 families): `out_next = output_stage(builder(input_stage(out_cur), data))` where output_stage(x) = ~x[::-1] is the
   transformation every one of these modules applies between its register and its `crc` port, so a lane maps
   "CRC value after a prefix" x "next data" -> "CRC value after prefix + data", which is what the specification defines.
 Workload (function level): all-zero, all-ones, one-hot and all-but-one bases of state and data, pairs differing in one
@@ -29,8 +32,9 @@ Not judged: cycles after contradictory controls (rx_valid together with tx_valid
   generated now and then, comparison suspended until the next restart.  Acceptance of whole data / header packets by
   the receivers that use the CRC-16 / CRC-32 modules is decided by C02 / C37 / C40; here only the token detector's use of
   the CRC5 builder is exercised in context.
-Deviations from DESIGN section 7: random volume per run is ~3e5 function evaluations instead of 1 M (pysim needs
+Deviations from DESIGN section 7: random volume per run is ~5e5 step evaluations instead of 1 M (pysim needs
   seconds just to compile the CRC-32 equations; the equations are XOR networks, for which the bases decide every tap);
+  the CRC-32 equation sets are reached through the real module (state set by a computed word) instead of lanes;
   2^24 enumeration of the USB2 byte step is split into 16 slices drawn at random per case (thorough tier: every slice
   is required to be hit).  `exhaustive` is claimed only for the two CRC5 tables (see events crc5_*_inputs).
 """
@@ -40,22 +44,24 @@ from rv.ref import usb2 as U
 
 PROPERTY = "C30"
 CASES = {"quick": 160, "thorough": 1000}
-RULE = ("case = one CRC family (crc5 20% / usb2_crc16 30% / usb3_crc16 30% / usb3_crc32 20%): function lanes driven with "
-        "zero / ones / one-hot / all-but-one bases, one-bit-apart pairs and random pairs (crc5: all 2^11 inputs), and the "
-        "real module driven with a 1500-4000 cycle random control/data sequence; every lane output and every module output "
-        "of every cycle compared with the bit-serial reference; non-trivial = bases complete and >=3 restarts; "
-        "distinct = hash of all stimulus")
+RULE = ("case = one CRC family (crc5 20% / usb2_crc16 30% / usb3_crc16 25% / usb3_crc32 25%): function lanes (crc32: the "
+        "module with its register steered to chosen values) driven with zero / ones / one-hot / all-but-one bases of state "
+        "and data, one-bit-apart pairs and random pairs (crc5: all 2^11 inputs; usb2 crc16: 256 random pairs of each of the "
+        "16 state slices, thorough: one complete 2^20 slice), and the real module driven with a 1500-4000 cycle random "
+        "control/data sequence; every lane output and every module output of every cycle compared with the bit-serial "
+        "reference; non-trivial = bases complete and >=3 restarts; distinct = hash of all stimulus")
 REQUIRED_BINS = (["crc5_usb2_all_inputs", "crc5_usb3_all_inputs", "token_good_crc", "token_bad_crc_one_bit", "token_bad_crc_random",
                   "usb2_crc16_basis_done", "usb2_crc16_restart_mid_packet", "usb2_crc16_restart_with_byte", "usb2_crc16_tx_source",
                   "usb2_crc16_rx_source", "usb2_crc16_back_to_back", "usb2_crc16_gaps", "usb2_crc16_long_run",
+                  "usb2_crc16_from_reset", "usb3_crc16_from_reset", "usb3_crc32_from_reset",
                   "usb3_crc16_basis_done", "usb3_crc16_restart_mid_packet", "usb3_crc16_three_words", "usb3_crc16_long_run",
                   "usb3_crc32_basis_done", "usb3_crc32_trailing_1", "usb3_crc32_trailing_2", "usb3_crc32_trailing_3",
                   "usb3_crc32_trailing_after_0_words", "usb3_crc32_restart_mid_packet", "usb3_crc32_long_run"]
                  + ["usb2_crc16_slice_%d" % i for i in range(16)])
 REQUIRED_EVENTS = ["crc5_usb2_inputs", "crc5_usb3_inputs", "tokens_accepted", "tokens_rejected",
                    "usb2_crc16_fn_compared", "usb2_crc16_module_compared", "usb3_crc16_fn_compared", "usb3_crc16_module_compared",
-                   "usb3_crc32_fn4_compared", "usb3_crc32_fn3_compared", "usb3_crc32_fn2_compared", "usb3_crc32_fn1_compared",
-                   "usb3_crc32_module_compared", "usb3_crc32_next_outputs_compared"]
+                   "usb3_crc32_basis_probes", "usb3_crc32_4byte_steps", "usb3_crc32_3byte_steps", "usb3_crc32_2byte_steps",
+                   "usb3_crc32_1byte_steps", "usb3_crc32_module_compared", "usb3_crc32_next_outputs_compared"]
 ASSUMPTIONS = [
     "equation builders take/return the module's register format; register -> CRC value is the module's own output stage ~x[::-1]",
     "a CRC value is laid out as the module's crc port: little-endian bytes = check-field bytes in transmission order",
@@ -222,7 +228,8 @@ class Hyp:
                 else:
                     self.first[L] = {"cycle": t, "observed": observed, "expected": exp, "L": L}
             if not still:
-                self.dead_info = self.first[min(self.alive)]
+                # report the combinational hypothesis' first contradiction (names the output that is wrong)
+                self.dead_info = self.first.get(0, self.first[min(self.alive)])
             self.alive = still
         self.prev = cur
 
@@ -505,6 +512,8 @@ def case_usb2_crc16(rng, tier, res):
             st["value"] = usb2_crc16_next(st["value"], b.get(crc.tx_data))
             st["n"] += 1
 
+    from_reset = [rng.random() < 0.5]
+
     def module_driver():
         yield
         t = 0
@@ -520,7 +529,13 @@ def case_usb2_crc16(rng, tier, res):
                 res.bin("usb2_crc16_long_run")
             # restart, sometimes together with a byte (the PID byte of a packet: excluded from the CRC)
             with_byte = rng.random() < 0.4
-            b.set(ifs[who].start, 1)
+            if from_reset[0]:
+                # very first packet of the case: no restart at all, the register still holds its reset value
+                from_reset[0] = False
+                with_byte = False
+                res.bin("usb2_crc16_from_reset")
+            else:
+                b.set(ifs[who].start, 1)
             if with_byte:
                 b.set(crc.rx_valid if src == "rx" else crc.tx_valid, 1)
                 b.set(crc.rx_data if src == "rx" else crc.tx_data, rng.randrange(256))
@@ -638,6 +653,8 @@ def case_usb3_crc16(rng, tier, res):
         elif b.get(crc.advance_crc):
             st["value"] = usb3_crc16_next(st["value"], b.get(crc.data_input))
 
+    from_reset = [rng.random() < 0.5]
+
     def module_driver():
         yield
         t = 0
@@ -648,7 +665,11 @@ def case_usb3_crc16(rng, tier, res):
             if n >= 50:
                 res.bin("usb3_crc16_long_run")
             fill = rng.choice(["random", "random", "zeros", "ones", "onebit"])
-            b.set(crc.clear, 1)
+            if from_reset[0]:
+                from_reset[0] = False           # first packet straight from reset, no clear
+                res.bin("usb3_crc16_from_reset")
+            else:
+                b.set(crc.clear, 1)
             b.set(crc.data_input, rng.getrandbits(32))
             yield
             t += 1
@@ -694,46 +715,52 @@ def case_usb3_crc16(rng, tier, res):
 
 # ===================================================================================== usb3 payload crc32
 
+def crc32_word_reaching(value):
+    """The 32-bit word which, processed right after a clear, leaves the CRC value `value` (reference-side arithmetic).
+
+    One word step = XOR the word into the (reflected) register, then 32 zero-input shifts; a zero-input shift is undone by
+    looking at bit 31 (set exactly when the polynomial was XORed in, because the shifted value has bit 31 clear).
+    """
+    poly = rev(0x04C11DB7, 32)
+    reg = value ^ 0xFFFFFFFF
+    for _ in range(32):
+        if reg & 0x80000000:
+            reg = (((reg ^ poly) << 1) | 1) & 0xFFFFFFFF
+        else:
+            reg = (reg << 1) & 0xFFFFFFFF
+    return reg ^ 0xFFFFFFFF            # register after clear is all ones
+
+
 def case_usb3_crc32(rng, tier, res):
-    from amaranth import Elaboratable, Module
     from luna.gateware.usb.usb3.link.crc import DataPacketPayloadCRC
     crc = DataPacketPayloadCRC()
-    lanes = {4: make_lane(crc._generate_next_full_crc, 32, 32), 3: make_lane(crc._generate_next_3B_crc, 32, 24),
-             2: make_lane(crc._generate_next_2B_crc, 32, 16), 1: make_lane(crc._generate_next_1B_crc, 32, 8)}
-
-    class Wrap(Elaboratable):
-        def elaborate(self, platform):
-            m = Module()
-            m.submodules.crc = crc
-            for k, l in lanes.items():
-                m.submodules["lane%d" % k] = l
-            return m
-
-    dut = Wrap()
-    ncyc = rng.randint(1500, 3000)
-    nrand = 1500 if tier == "quick" else 5000
-    streams = {k: pair_stream(rng, 32, 8 * k, nrand) for k in lanes}
-    longest = max(len(p) for p, _ in streams.values())
-    b = Bench(dut, domain="ss", freq=125e6, max_cycles=max(ncyc, longest) + 20)
+    ncyc = rng.randint(2000, 4000) if tier == "quick" else rng.randint(6000, 12000)
+    # basis probes: put the register at a chosen CRC value S with one word after a clear, then present data D:
+    # next_crc_3B/2B/1B (combinational in S and D) are compared, then one advance (4/3/2/1 bytes) is taken and crc compared
+    basis = basis_pairs(32, 32)
+    extra = 200 if tier == "quick" else 1500
+    for _ in range(extra):
+        sv, dv = rng.getrandbits(32), rng.getrandbits(32)
+        if rng.random() < 0.3:
+            sv, dv = sv & rng.getrandbits(32) & rng.getrandbits(32), dv & rng.getrandbits(32)
+        basis.append((sv, dv))
+    probes = []
+    for i, (sv, dv) in enumerate(basis):
+        probes.append((sv, dv, 4))
+        probes.append((sv, dv, (3, 2, 1)[i % 3]))
+    rng.shuffle(probes)
+    for sv in (0, 0xFFFFFFFF, 1, 0x80000000, 0x12345678):
+        assert crc32_next(0, crc32_word_reaching(sv), 4) == sv, "crc32 preimage self-check failed"
+    b = Bench(crc, domain="ss", freq=125e6, max_cycles=ncyc + 7 * len(probes) + 1000)
     adv = {4: crc.advance_word, 3: crc.advance_3B, 2: crc.advance_2B, 1: crc.advance_1B}
     nxt_out = {3: crc.next_crc_3B, 2: crc.next_crc_2B, 1: crc.next_crc_1B}
     b.watch(crc.clear, crc.data_input, crc.crc, *adv.values(), *nxt_out.values())
-    for l in lanes.values():
-        b.watch(l.s, l.d, l.o)
-    res.desc = {"kind": "usb3_crc32", "ops": []}
-    res.sig("usb3_crc32", [streams[k][0][streams[k][1]:streams[k][1] + 16] for k in lanes])
-    st = {"value": 0, "known": True, "restarts": 0, "n": {k: 0 for k in lanes}}
+    res.desc = {"kind": "usb3_crc32", "ops": [], "probes": len(probes)}
+    res.sig("usb3_crc32", probes[:32])
+    st = {"value": 0, "known": True, "restarts": 0, "probes_done": 0, "steps": {4: 0, 3: 0, 2: 0, 1: 0}}
     hyp = Hyp()
 
     def monitor(b):
-        for k, l in lanes.items():
-            if st["n"][k] < len(streams[k][0]) + 1:
-                s, d, o = b.get(l.s), b.get(l.d), b.get(l.o)
-                exp = crc32_next(s, d, k)
-                res.event("usb3_crc32_fn%d_compared" % k)
-                st["n"][k] += 1
-                if o != exp:
-                    res.violation("usb3_crc32_%dbyte_step_wrong" % k, "crc_before=%#010x data=%#x crc_after=%#010x expected=%#010x" % (s, d, o, exp))
         din = b.get(crc.data_input)
         model = (st["value"],) + tuple(crc32_next(st["value"], din & ((1 << (8 * k)) - 1), k) for k in (3, 2, 1))
         obs = (b.get(crc.crc),) + tuple(b.get(nxt_out[k]) for k in (3, 2, 1))
@@ -751,20 +778,56 @@ def case_usb3_crc32(rng, tier, res):
         elif active:
             k = active[0]
             st["value"] = crc32_next(st["value"], din & ((1 << (8 * k)) - 1), k)
+            if st["known"]:
+                st["steps"][k] += 1
+                res.event("usb3_crc32_%dbyte_steps" % k)
+
+    from_reset = [rng.random() < 0.5]
+
+    def probe(sv, dv, k):
+        b.set(crc.clear, 1)
+        b.set(crc.data_input, rng.getrandbits(32))
+        yield
+        b.set(crc.clear, 0)
+        b.set(crc.advance_word, 1)
+        b.set(crc.data_input, crc32_word_reaching(sv))
+        yield
+        b.set(crc.advance_word, 0)
+        b.set(crc.data_input, dv)
+        for _ in range(rng.choice([1, 1, 2])):
+            yield                                     # register = S, data = D: next_crc_* compared here
+        b.set(adv[k], 1)
+        yield
+        b.set(adv[k], 0)
+        b.set(crc.data_input, rng.getrandbits(32))
+        yield                                         # crc after the step compared here
+        st["probes_done"] += 1
+        res.event("usb3_crc32_basis_probes")
 
     def module_driver():
         yield
-        t = 0
-        while t < ncyc:
-            n = rng.choice([0, 0, 1, 2, 3, 4, 5, rng.randint(6, 20), rng.randint(60, 256) if rng.random() < 0.2 else 2])
+        pi = 0
+        spent = 0                       # cycles spent on random packets
+        while spent < ncyc or pi < len(probes):
+            # interleave probes with random packets
+            if pi < len(probes) and not from_reset[0] and (spent >= ncyc or rng.random() < 0.5):
+                for _ in range(min(rng.randint(1, 12), len(probes) - pi)):
+                    yield from probe(*probes[pi])
+                    pi += 1
+                continue
+            c0 = b.cycle
+            n = rng.choice([0, 0, 1, 2, 3, 4, 5, rng.randint(6, 20), rng.randint(60, 256) if rng.random() < 0.3 else 2])
             tail = rng.choice([0, 1, 2, 3])
             fill = rng.choice(["random", "random", "zeros", "ones", "onebit"])
             if n >= 60:
                 res.bin("usb3_crc32_long_run")
-            b.set(crc.clear, 1)
+            if from_reset[0]:
+                from_reset[0] = False           # first packet straight from reset, no clear
+                res.bin("usb3_crc32_from_reset")
+            else:
+                b.set(crc.clear, 1)
             b.set(crc.data_input, rng.getrandbits(32))
             yield
-            t += 1
             b.set(crc.clear, 0)
             abort_at = rng.randrange(n) if (n > 1 and rng.random() < 0.25) else None
             if len(res.desc["ops"]) < 10:
@@ -780,16 +843,14 @@ def case_usb3_crc32(rng, tier, res):
                     b.set(crc.advance_word, 0)
                     b.set(crc.data_input, rng.getrandbits(32))
                     yield
-                    t += 1
                 w = {"random": rng.getrandbits(32), "zeros": 0, "ones": 0xFFFFFFFF, "onebit": 1 << rng.randrange(32)}[fill]
                 res.sig(w)
                 b.set(crc.advance_word, 1)
                 b.set(crc.data_input, w)
-                contradictory = rng.random() < 0.01
+                contradictory = rng.random() < 0.004
                 if contradictory:
                     b.set(crc.advance_2B, 1)            # two strobes at once: unjudged until the next clear
                 yield
-                t += 1
                 b.set(crc.advance_word, 0)
                 if contradictory:
                     b.set(crc.advance_2B, 0)
@@ -797,7 +858,6 @@ def case_usb3_crc32(rng, tier, res):
                 for _ in range(rng.choice([0, 0, 1, 2])):
                     b.set(crc.data_input, rng.getrandbits(32))
                     yield
-                    t += 1
                 w = rng.getrandbits(32) if fill != "zeros" else rng.getrandbits(32) & ~((1 << (8 * tail)) - 1)
                 res.sig(w)
                 b.set(crc.data_input, w)            # bytes above the trailing ones are garbage on purpose
@@ -806,40 +866,38 @@ def case_usb3_crc32(rng, tier, res):
                 if n == 0:
                     res.bin("usb3_crc32_trailing_after_0_words")
                 yield
-                t += 1
                 b.set(adv[tail], 0)
                 # the CRC is read out now; hold for a few cycles with changing data_input (crc must not move)
                 for _ in range(rng.choice([1, 2, 4])):
                     b.set(crc.data_input, rng.getrandbits(32))
                     yield
-                    t += 1
             else:
                 for _ in range(rng.choice([0, 1, 2])):
                     b.set(crc.data_input, rng.getrandbits(32))
                     yield
-                    t += 1
+            spent += b.cycle - c0 + 1
         yield
         yield
 
     b.add_monitor(monitor)
     b.add_driver(module_driver(), main=True)
-    for k, l in lanes.items():
-        b.add_driver(drive_lane(b, l, streams[k][0]), main=True)
     b.run()
     res.cycles = b.cycle
+    if b.hit_max_cycles:
+        res.violation("harness_max_cycles", "crc32 case did not finish")
     if hyp.dead_info:
         d = hyp.dead_info
         names = ("crc", "next_crc_3B", "next_crc_2B", "next_crc_1B")
         bad = [names[i] for i in range(4) if d["observed"][i] != d["expected"][i]]
-        res.violation("usb3_crc32_module_%s_wrong" % bad[0], "DataPacketPayloadCRC: cycle %d observed=%s expected=%s (L=%d)" % (
+        res.violation("usb3_crc32_%s_wrong" % bad[0], "DataPacketPayloadCRC: cycle %d observed=%s expected=%s (L=%d)" % (
             d["cycle"], [hex(x) for x in d["observed"]], [hex(x) for x in d["expected"]], d["L"]))
-    if all(st["n"][k] >= streams[k][1] for k in lanes):
+    if st["probes_done"] == len(probes):
         res.bin("usb3_crc32_basis_done")
-    res.nontrivial = all(st["n"][k] >= len(streams[k][0]) for k in lanes) and st["restarts"] >= 3
+    res.nontrivial = st["probes_done"] == len(probes) and st["restarts"] >= 3
 
 
-KINDS = [("crc5", case_crc5, 20), ("usb2_crc16", case_usb2_crc16, 30), ("usb3_crc16", case_usb3_crc16, 30),
-         ("usb3_crc32", case_usb3_crc32, 20)]
+KINDS = [("crc5", case_crc5, 20), ("usb2_crc16", case_usb2_crc16, 30), ("usb3_crc16", case_usb3_crc16, 25),
+         ("usb3_crc32", case_usb3_crc32, 25)]
 
 
 def run_case(rng, tier, res):
